@@ -38,8 +38,14 @@ func verifDenItems(s Set) (d []verifPair, other int) {
 	return d, other
 }
 
+var verifArrayWide bool // thorough tier: wider index range
+
 func verifArrayOp(p Set) (r Set, crashed bool) {
-	at := verifNondetIntIn(-1, 4)
+	lo, hi := -1, 4
+	if verifArrayWide {
+		lo, hi = -2, 5
+	}
+	at := verifNondetIntIn(lo, hi)
 	item := NewNumber(float64(verifNondetIntIn(0, 1)))
 	with := verifChoice(2) == 0
 	crashed = verifTry(func() {
@@ -52,9 +58,10 @@ func verifArrayOp(p Set) (r Set, crashed bool) {
 	return r, crashed
 }
 
-// verif:bound VerifC03ArrayBranching parent array of 0..3 items in {0,1} at an offset in [-1,1], 0..1 earlier with/without operation, then two with/without operations on the same parent (index in [-1,4]); histories in which an operation panics (several items at one index: known finding under C10) are skipped
+// verif:bound VerifC03ArrayBranching parent array of 0..3 items in {0,1} at an offset in [-1,1], 0..1 earlier with/without operation, then two with/without operations on the same parent (index in [-1,4]; thorough: [-2,5]); histories in which an operation panics (several items at one index: known finding under C10) are skipped
 // verif:cover VerifC03ArrayBranching branched
 func VerifC03ArrayBranching() {
+	verifArrayWide = verifThorough()
 	n := verifChoice(4)
 	items := make([]Value, n)
 	for i := range items {
